@@ -53,12 +53,12 @@ _VIOL = re.compile(r"Invariant (\S+) is violated|Temporal properties were violat
                    r"Error: The behavior up to this point is")
 
 
-def _java_cmd(module, cfg, workers, extra, heap):
+def _java_cmd(module, cfg, workers, extra, heap, tmpdir=None):
     # many single-worker JVMs run side by side during trace validation: a parallel collector with
     # 16 GC threads each makes them thrash, so small runs use the serial collector
     gc = "-XX:+UseSerialGC" if str(workers) == "1" else "-XX:+UseParallelGC"
     return ["java", gc, "-Xss64m", "-XX:TieredStopAtLevel=1" if str(workers) == "1" else "-XX:+TieredCompilation",
-            f"-Xmx{heap}", "-cp", JAR, "tlc2.TLC",
+            f"-Xmx{heap}", *([f"-Djava.io.tmpdir={tmpdir}"] if tmpdir else []), "-cp", JAR, "tlc2.TLC",
             "-config", cfg, "-workers", str(workers), "-noGenerateSpecTE", *extra, module]
 
 
@@ -72,7 +72,7 @@ def run_tlc(module: str, cfg: str | None = None, workers: int | str = "auto",
     e.pop("JAVA_TOOL_OPTIONS", None)
     if env:
         e.update(env)
-    cmd = _java_cmd(module, cfg, workers, ["-metadir", meta] + list(extra or []), heap)
+    cmd = _java_cmd(module, cfg, workers, ["-metadir", meta] + list(extra or []), heap, tmpdir=meta)
     t0 = time.time()
     try:
         p = subprocess.run(cmd, cwd=SPEC_DIR, env=e, stdout=subprocess.PIPE,
